@@ -301,6 +301,22 @@ fn relate(case: &Case, body: &[u8], got: &[u8], in_error: bool, applicable: &[(u
         in_error: bool,
     }
     let r = R { in_error };
+    // "only the configured insertions": an HTML filter whose target element never occurs in the body has nowhere to act
+    // (values are sentinels without markup, so no filter creates the target of another)
+    for (k, f) in applicable {
+        if is_text(&f.action) {
+            continue;
+        }
+        let Some(last) = f.path.last() else { continue };
+        let needle = format!("<{}", last.to_ascii_lowercase());
+        let lower = body.to_ascii_lowercase();
+        let occurs = lower.windows(needle.len()).enumerate().any(|(i, w)| w == needle.as_bytes() && lower.get(i + needle.len()).is_none_or(|c| !c.is_ascii_alphanumeric() && *c != b'-'));
+        let s = sentinel(*k);
+        if !occurs && got.windows(s.len()).any(|w| w == s.as_bytes()) {
+            out.fail(format!("{}: the value {s} of the filter on {:?} was inserted although no <{last}> element occurs in the body", describe(), f.path));
+            return out;
+        }
+    }
     // strip insert sentinels; a text replace makes everything before it irrelevant
     let last_text_replace = applicable.iter().rposition(|(_, f)| f.action == "replace_text");
     let mut stripped = got.clone();
@@ -461,7 +477,7 @@ pub fn run(ctx: &Ctx) -> Report {
         "case = body (arbitrary bytes incl. invalid UTF-8 and NULs, fragment soup, truncated / mutated generated DOM) x 0..3 filters whose values are sentinels ~~Sk~~ absent from the body (HTML append/prepend/replace over paths and selectors incl. unparsable ones, text append/prepend/replace, unknown action, empty element tree) \
          x response headers (none, text/html, application/json, unsupported Content-Encoding) x chunk schedule (whole, byte-wise, two-partition, k-partition with empty chunks, strides) x fault (an invalid byte injected at a generated offset so that the UTF-8 error strikes after bytes were held back); \
          oracle by filter class: nothing applicable / unsupported encoding => out == in; insert-only => out with all sentinels removed == in; HTML replace => out split at the sentinels is a sequence of consecutive segments of in whose gaps each start with '<' and end with '>' (existence by DP); \
-         text replace => out == content; mixed lists => strip insert sentinels, then the replace relation; the same relations when the chain errors at any chunk; non-trivial = a sentinel is present in the output, or the chain entered its error state (hook) on a multi-chunk schedule; distinct by case hash",
+         text replace => out == content; mixed lists => strip insert sentinels, then the replace relation; an HTML filter whose target element name never occurs in the body inserts nothing; the same relations when the chain errors at any chunk; non-trivial = a sentinel is present in the output, or the chain entered its error state (hook) on a multi-chunk schedule; distinct by case hash",
     );
     rep.assume("part declared-encodings: the response declares gzip / deflate / br and the body is either really compressed or sent as it is; the oracle is out == in, or the output is one complete valid stream whose decompression stands in the statement's relations to the decompressed input; while known finding D26 is listed, failures of cases in which an error is bound to strike inside the chain (invalid stream, or decoded text that is not UTF-8 reaching an HTML stage) are counted as that finding, all others are violations");
     rep.assume("part bytes: only unsupported encodings are generated; a value is allowed at most once per '<' of the input (runaway guard, weaker than 'once per target')");
